@@ -75,12 +75,38 @@ def group_counting(run, ctx):
     for k, c in (("Group", 3), ("LookAround", 4), ("AtomicGroup", 1)):
         if kinds.get(k, 0) < c:
             run.violation(fam, label, "anchor-missing/" + k, w, "anchor-missing: expected at least %d parse_group paths producing %s, found %d" % (c, k, kinds.get(k, 0)))
-    # the named forms agree (sibling): (?<name> and (?P<name>
-    c = H.canon(fn["body"])
-    for pref, off in (('"?<"', "1"), ('"?P<"', "2")):
-        m = re.search(r'self\.re\[ix\.\.\]\.starts_with\(%s\) \{self\.curr_group \+= 1; if let Some\(\(id,skip\)\) = parse_id\(self\.re\[\(%s \+ ix\)\.\.\],"<",">",false\) \{self\.named_groups\.insert\(id\.to_string\(\),self\.curr_group\); \(None,\(%s \+ skip\)\)\} else \{return Err\(Error::ParseError\(ix,ParseError::InvalidGroupName\)\)\}\}' % (re.escape(pref), off, off), c)
-        if not m:
-            run.violation(fam, label, "named-form/" + pref, w, "the named-group form %s must count the group, parse the name after %s byte(s), record it and skip the prefix; shape not found" % (pref, off))
+    # the named forms agree (sibling): (?<name> and (?P<name>: the name is parsed K bytes after `(`, where K is the
+    # length of what precedes `<`, and the same K is added to the bytes to skip  (path-based)
+    seen_named = {}
+    for p in paths:
+        v = S.ret_value(p)
+        if v is None or not v.startswith("Ok(("):
+            continue
+        evs = p.events
+        env = {ev.a: ev.b for ev in evs if ev.kind == "let" and re.match(r"^\w+$", ev.a or "") and ev.b and "(" not in ev.b and "?" not in ev.b}
+        sub = lambda t: H.subst_lets(t or "", env)
+        pref = None
+        for ev in evs:
+            if ev.kind == "cond" and ev.b is True:
+                m = re.match(r'^self\.re\[ix\.\.\]\.starts_with\("(\?P?<)"\)$', sub(ev.a))
+                if m:
+                    pref = m.group(1)
+        if pref is None:
+            continue
+        K = len(pref) - 1
+        ids = [(ev.a, sub(ev.b)) for ev in evs if ev.kind in ("letcond", "let") and "parse_id(" in (ev.b or "") and (ev.kind == "let" or ev.c)]
+        tl = [ev for ev in evs if ev.kind == "let" and (ev.a or "").startswith("(") and "skip" in ev.a]
+        good = False
+        if ids and tl:
+            m = re.match(r"^Some\(\((\w+),(\w+)\)\)$", ids[0][0])
+            want_call = 'parse_id(self.re[(%d + ix)..],"<",">",false)' % K
+            if m and ids[0][1] == want_call:
+                skipv = sub(tl[0].b)
+                good = skipv in ("(None,(%d + %s))" % (K, m.group(2)), "(None,(%s + %d))" % (m.group(2), K))
+        seen_named[pref] = seen_named.get(pref, True) and good
+    for pref, off in (("?<", 1), ("?P<", 2)):
+        if not seen_named.get(pref):
+            run.violation(fam, label, 'named-form/"%s"' % pref, w, "the named-group form \"%s\" must count the group, parse the name after %d byte(s), record it and skip the prefix; shape not found" % (pref, off))
     run.ok(fam, label, w, n, "parse_group result paths %s: exactly the Group-producing ones count and name" % kinds)
     # only parse_group writes curr_group
     piece_keeps_atom(run, ctx)
@@ -160,7 +186,33 @@ def names_api(run, ctx):
         c = H.canon(H.peel(fn["body"]))
         N = fn["params"][1].get("name")
         n += 1
-        if not H.pat_match("self.named_groups.get(%s).and_then(|{i}| self.get({i}))" % N, c):
+        ok = H.pat_match("self.named_groups.get(%s).and_then(|{i}| self.get({i}))" % N, c) is not None
+        if not ok:
+            # the same with `?` / match / if let: on every path the index found for the name is what get() is asked for
+            ok = True
+            some = 0
+            for p in S.paths_of(fn["body"]):
+                v = S.ret_value(p)
+                sm = S.Summary(p)
+                oc = S.opt_outcomes(p, "self.named_groups.get(%s)" % N)
+                tries = [ev for ev in p.events if ev.kind == "try-ok" and ev.a == "self.named_groups.get(%s)" % N]
+                if p.exit == "try-err":
+                    continue
+                if v is None:
+                    ok = False
+                elif tries:
+                    some += 1
+                    ok = ok and sm.val == "self.get(self.named_groups.get(%s)?)" % N
+                elif oc and oc[-1][1] == "some":
+                    some += 1
+                    b_ = re.sub(r"^\w+\((\w+)\)$", r"\1", oc[-1][2] or "")
+                    ok = ok and sm.val == "self.get(%s)" % b_
+                elif oc and oc[-1][1] == "none":
+                    ok = ok and v == "None"
+                else:
+                    ok = False
+            ok = ok and some >= 1
+        if not ok:
             run.violation(fam, label, "name", H.where(fn), "Captures::name(n) must be get(index of n), found %s" % c)
     fn = S.get_fn(run, ctx, "<SubCaptureMatches as Iterator>::next", fam, label)
     if fn is not None:
